@@ -606,7 +606,8 @@ def c12_jobs(tier):
             v = v * 4 + d
         return v
     vp = [enc(x) for x in ([0, 0, 0], [1, 0, 1], [2, 0, 1], [3, 0, 1])]
-    kinds = [0, 1, 2, 3] if quick else list(range(8))
+    # (Float32 / Real32 containers: same template text; the sparse 32-bit clones of views exhaust the path cap and are not run)
+    kinds = [0, 1, 2, 3] if quick else [0, 1, 2, 3, 4, 5]
     mps = [0, enc([1, 0, 0, 0, 1, 0, 2, 0, 1])]
     for kind in kinds:
         for how in range(4):
@@ -652,7 +653,7 @@ PROPS["C12"] = {
     "selftest_vars": ["a", "a.d", "a.h", "v", "v.d", "w", "w.d", "w.h", "u", "u.d", "u.h", "b", "b.d", "f", "g"],
     "bounds": {"quick": "Clone*/As* of dense and sparse Float64/Real64 vectors (length 3) and matrices (Slice/T views of a 3x3 parent, all slice bounds), Real64/Float64 scalars (jets N=2, order 2), iterator clones; "
                         "symbolic element values, every position of clone / source mutated with symbolic values; read-only operands of 6 operation groups; index/value constructors; 24 algorithm entry-point configurations (incl. an InSitu object reused for a second matrix) (qrAlgorithm incl. Symmetric and caller-supplied work space, eigensystem, svd, Hessenberg / bidiagonal / tridiagonal reductions, Gram-Schmidt, Cholesky, inverse, determinant, back substitution, msqrt, msqrtInv) on symbolic 2x2 matrices with the input under a write watch",
-               "thorough": "also Float32/Real32 and depth-3 views; algorithm entry points also with Real64 elements and (breadth-first, 24 paths) on 3x3"},
+               "thorough": "also dense Float32/Real32 and depth-3 views; algorithm entry points also with Real64 elements and (breadth-first, 24 paths) on 3x3"},
     "outside": "optimiser entry points (start vectors of rprop / bfgs / newton / gradientDescent / saga); distributions' constructors; for the iterative entry points the input is watched along the explored paths only (breadth-first, path and time caps stated in the evidence): a write that happens only after many iterations is not seen",
     "assumptions": ["map iteration order modelled as ascending key order"],
 }
